@@ -25,6 +25,8 @@ pub struct BfsOut {
     pub deepest: Hist,
     pub level_sizes: Vec<u64>,
     pub violations: u64,
+    /// per symbol: how many transitions it labelled (0 = the symbol was never enabled: a dead part of the alphabet)
+    pub symbol_uses: Vec<u64>,
 }
 
 pub struct BfsCfg {
@@ -59,6 +61,7 @@ where
         deepest: vec![],
         level_sizes: vec![],
         violations: 0,
+        symbol_uses: vec![0; nsym],
     };
     for (h, k) in roots {
         if seen.insert(k) {
@@ -95,9 +98,11 @@ where
                         Step::Violation => {
                             out.transitions += 1;
                             out.violations += 1;
+                            out.symbol_uses[s] += 1;
                         },
                         Step::Next(k) => {
                             out.transitions += 1;
+                            out.symbol_uses[s] += 1;
                             if seen.insert(k) {
                                 let mut nh = h.clone();
                                 nh.push(s as u16);
